@@ -150,22 +150,29 @@ def h_copies(env):
     mod = shapes.build_bp(cat)
     val, m = make(env, cat, mod, env.params["origin"])
     how = env.params["copier"]
-    before = snapshot(cat, m)
-    env.observe("bytes", before[0])
-    if env.params.get("observe_first"):
-        read_all(cat, "M", m)
-    if how == "copy":
-        c = _copy.copy(m)
-    elif how == "deepcopy":
-        c = _copy.deepcopy(m)
-    else:
-        f, args = m.__reduce__()
-        c = f(*args)
-        if not env.sym:
-            import pickle
 
-            c2 = pickle.loads(pickle.dumps(m))
-            env.check("pickle-module-agrees-with-reduce", bytes(c2) == bytes(c) and c2 == c)
+    def do_copy():
+        if how == "copy":
+            return _copy.copy(m)
+        if how == "deepcopy":
+            return _copy.deepcopy(m)
+        f, args = m.__reduce__()
+        return f(*args)
+
+    if env.params.get("observe_first"):
+        before = snapshot(cat, m)
+        read_all(cat, "M", m)
+        c = do_copy()
+    else:
+        # copy a message nothing has looked at yet (no lazily materialised defaults), then take the snapshots
+        c = do_copy()
+        before = snapshot(cat, m)
+    env.observe("bytes", before[0])
+    if how == "pickle" and not env.sym:
+        import pickle
+
+        c2 = pickle.loads(pickle.dumps(m))
+        env.check("pickle-module-agrees-with-reduce", bytes(c2) == bytes(c) and c2 == c)
     env.check("copy==original", c == m)
     after = snapshot(cat, c)
     env.check("copy-encodes-identically", after[0] == before[0])
